@@ -42,7 +42,7 @@ def kind_table(tier):
 def cases(tier, seed):
     out = []
     # (A)
-    scA = (0, 1, 4) if tier == "quick" else (0, 1, 2, 3, 4, 5)
+    scA = (0, 1, 4, 6) if tier == "quick" else (0, 1, 2, 3, 4, 5, 6)
     for (n, obj, rows, vk) in kind_table(tier):
         spec = S.mk(n, obj, rows, vk)
         for sc in G.scalings_of(spec, scA):
@@ -62,6 +62,14 @@ def cases(tier, seed):
             sp2 = G.raw(2, {"g": g, "H": [[1e-6, 0.0], [0.0, 1e-6]]}, [{"a": [1.0, 1.0], "b": 0.0, "lb": "-inf", "ub": 2.5e6}], [-1.0e6, -1.0e6], [2.0e6, 2.0e6],
                         [2.0e6 - off, 1.0], f"bigbox_near_bound_cons|{off}|{g}")
             out.append({"t": "A", "spec": sp2, "cfg": {"iteration_limit": HORIZON[tier]}, "sc": None})
+    # (A3) bounds that are not binary fractions, active at the solution
+    for obj in ("qdiag", "qfull", "cubic", "lin"):
+        for vk in (["odd", "odd"], ["odd", "free"], ["boxed", "odd"]):
+            for rows in ([], [("affine", "ranged")], [("sphere", "upper")]):
+                for x0i in (0, 1, 2, 3):
+                    spec = S.mk(2, obj, rows, vk, x0_idx=x0i)
+                    for sc in G.scalings_of(spec, (0, 2)):
+                        out.append({"t": "A", "spec": spec, "cfg": {"iteration_limit": HORIZON[tier]}, "sc": sc})
     # (B)
     cfgs = G.configs_pairs() if tier == "quick" else G.configs_full()
     specsB = G.core_specs()
@@ -80,7 +88,7 @@ def cases(tier, seed):
                 out.append({"t": "B", "spec": spec, "cfg": c, "sc": G.scalings_of(spec, (2,))[0]})
     # (C) flow-integration solver on generic-position specs
     for spec in integration_specs(tier):
-        for sc in G.scalings_of(spec, (0, 1)):
+        for sc in G.scalings_of(spec, (0, 1, 6)):
             out.append({"t": "C", "spec": spec, "cfg": {"params": {"rho": 1e-2}}, "sc": sc, "_alarm": 10})
     return out
 
